@@ -136,6 +136,62 @@ structure AlgState where
   second : Bool
   deriving DecidableEq, Repr
 
+/-! ## GOceanExtractTrans / LFRicExtractTrans: region-name counter and driver file before `validate` -/
+
+structure ExtractState where
+  counter : Nat      -- PSyDataTrans._used_kernel_names[module|region]: names the NEXT region `…:r<counter>`
+  driver : Bool      -- a driver file has been written
+  region : Bool      -- the nodes have been enclosed in an ExtractNode
+  deriving DecidableEq, Repr
+
+def extractReserve (createDriver : Bool) (s : ExtractState) : ExtractState :=
+  { s with counter := s.counter + 1, driver := s.driver || createDriver }
+
+/-- `PSyDataTrans.apply` (the `super().apply`): validate, then enclose the nodes -/
+def psyDataApply (v : ExtractState → Bool) : Prog ExtractState :=
+  validateThen v (.prim (fun s => { s with region := true }) .done)
+
+/-- pinned: `get_node_list` (check), reserve the region name, write the driver, then `super().apply` validates -/
+def extractPinned (createDriver : Bool) (nodesOk v : ExtractState → Bool) : Prog ExtractState :=
+  .check nodesOk (.prim (extractReserve createDriver) (.call (fun _ => psyDataApply v) .done))
+
+/-- fixed (`fixes/C26-extract-validate-before-side-effects.patch`): validate right after `get_node_list` -/
+def extractFixed (createDriver : Bool) (nodesOk v : ExtractState → Bool) : Prog ExtractState :=
+  .check nodesOk (validateThen v (.prim (extractReserve createDriver) (.call (fun _ => psyDataApply v) .done)))
+
+/-! ## KernelModuleInlineTrans: the equality test with an already inlined routine comes after the preparation -/
+
+structure KmiState where
+  prepared : Bool    -- `_prepare_code_to_inline` has moved the imports into the kernel routine
+  inlined : Bool     -- routine added to the container / call marked module-inlined
+  deriving DecidableEq, Repr
+
+/-- `exists_` = a routine of that name is already in the container, `same` = it equals the prepared kernel -/
+def kernelModuleInline (exists_ same : Bool) (v : KmiState → Bool) : Prog KmiState :=
+  validateThen v
+    (.prim (fun s => { s with prepared := true })
+      (.call (fun _ => if exists_ then .check (fun _ => same) .done else .done)
+        (.prim (fun s => { s with inlined := true }) .done)))
+
+/-! ## Sign2CodeTrans: the nested Abs2CodeTrans is applied to an ABS call that Sign2CodeTrans has just built -/
+
+structure SignState where
+  absIsCall : Bool       -- the node handed to Abs2CodeTrans is an IntrinsicCall …
+  absIsAbs : Bool        -- … whose intrinsic is ABS …
+  absInAssign : Bool     -- … inside an Assignment
+  expanded : Bool
+  finished : Bool
+  deriving DecidableEq, Repr
+
+/-- `Intrinsic2CodeTrans.validate` of Abs2CodeTrans on the node built by Sign2CodeTrans -/
+def absValidate (s : SignState) : Bool := s.absIsCall && s.absIsAbs && s.absInAssign
+
+def sign2code (v : SignState → Bool) : Prog SignState :=
+  validateThen v
+    (.prim (fun s => { s with absIsCall := true, absIsAbs := true, absInAssign := true })   -- res_sign = ABS(op1)
+      (.call (fun _ => validateThen absValidate (.prim (fun s => { s with expanded := true }) .done))
+        (.prim (fun s => { s with finished := true }) .done)))
+
 /-! ## ArrayReductionBaseTrans (Sum2LoopTrans, Product2LoopTrans, Maxval2LoopTrans, Minval2LoopTrans) -/
 
 structure RedState where
